@@ -408,11 +408,15 @@ def receiver_oracle(line, impl, clauses):
                 return ("ACK emitted %d times instead of %d" % (len(acks), c.rep), "repeat-count")
             if len(acks) != c.rep:
                 return ("ACK emitted %d times instead of %d" % (len(acks), c.rep), "repeat-count")
+        pend_before = pend - 1 if accepted_now else pend
         if acks:
             pend = 0
         if "window" in clauses and accepted_now and c.w >= 1:
-            if (final_now or pend >= c.w) and not acks:
+            if (final_now or pend_before + 1 >= c.w) and not acks:
                 return ("no ACK after %s" % ("the final block" if final_now else "windowsize in-order blocks"), "missing-ack")
+            if (final_now or pend_before + 1 >= c.w) and acks and int(acks[0][1:].split(":")[0]) != k % 65536:
+                return ("the acknowledgement due after %s names block %s, not the last in-order block %d" % (
+                    "the final block" if final_now else "windowsize in-order blocks", acks[0][1:].split(":")[0], k % 65536), "ack-wrong-block")
         if "reack" in clauses and kind == "data" and not accepted_now and i < len(groups) and st != "x":
             # a retransmitted (already accepted) block must be re-acknowledged so that a sender whose ACK was lost can go on
             if 1 <= k and n == k % 65536 and not acks and not (i == len(groups) - 1 and st == "failed"):
